@@ -24,25 +24,27 @@ import Model.Sum
 
 namespace DV
 
-/-- Syntax tree of a printed constructor expression. -/
+/-- Syntax tree of a printed constructor expression.  Integer literals (winding numbers,
+    offsets) are `tok (toString i)`. -/
 inductive RT where
-  | tok (s : String)                       -- opaque Python repr of a name or of `data`
-  | int (i : Int)                          -- a Python int literal
-  | call (fn : String) (args : List RT)    -- `fn(a, b, …)`
-  | kw (key : String) (v : RT)             -- `key=v` (only as an argument)
-  | list (xs : List RT)                    -- `[a, b, …]`
-  | meth (recv : RT) (m : String)          -- `recv.m()`
+  | tok (s : String)                                  -- opaque Python repr of a name / `data`, or an int
+  | call (fn : String) (args : List RT)               -- `fn(a, b, …)`
+  | kw (key : String) (v : RT)                        -- `key=v` (only as an argument)
+  | list (xs : List RT)                               -- `[a, b, …]`
+  | callm (fn : String) (args : List RT) (m : String) -- `fn(a, b, …).m()`
   deriving Repr, Inhabited
+
+/-- A Python int literal. -/
+def RT.int (i : Int) : RT := .tok (toString i)
 
 mutual
 /-- Flatten to the string Python prints. -/
 def RT.render : RT → String
   | .tok s => s
-  | .int i => toString i
   | .call fn args => fn ++ "(" ++ RT.renderArgs args ++ ")"
   | .kw key v => key ++ "=" ++ v.render
   | .list xs => "[" ++ RT.renderArgs xs ++ "]"
-  | .meth recv m => recv.render ++ "." ++ m ++ "()"
+  | .callm fn args m => fn ++ "(" ++ RT.renderArgs args ++ ")." ++ m ++ "()"
 /-- `', '.join(map(render, xs))` -/
 def RT.renderArgs : List RT → String
   | [] => ""
@@ -71,9 +73,9 @@ def reprTTyMonoidal (t : Ty) : RT := .call "Ty" (t.map (fun x => RT.tok x.name))
 /-- The optional `, data=…` argument of cat.py:591. -/
 def reprTData (data : String) : List RT := if data = "-" then [] else [.kw "data" (.tok data)]
 
-/-- cat.py:589-591: `Box(name, dom, cod[, data=…])`. -/
-def reprTGen (name : String) (dom cod : Ty) (data : String) : RT :=
-  .call "Box" ([.tok name, reprTTy dom, reprTTy cod] ++ reprTData data)
+/-- cat.py:589-591: the arguments of `Box(name, dom, cod[, data=…])`. -/
+def reprTGenArgs (name : String) (dom cod : Ty) (data : String) : List RT :=
+  [.tok name, reprTTy dom, reprTTy cod] ++ reprTData data
 
 /-- `repr(box)`.
     * `gen`: cat.py:586-591 — a daggered box prints as `repr(self.dagger()) + ".dagger()"`,
@@ -84,8 +86,8 @@ def reprTGen (name : String) (dom cod : Ty) (data : String) : RT :=
 def reprTBox (b : Box) : RT :=
   match b.kind with
   | .gen =>
-    if b.dagger then .meth (reprTGen b.name b.cod b.dom b.data) "dagger"
-    else reprTGen b.name b.dom b.cod b.data
+    if b.dagger then .callm "Box" (reprTGenArgs b.name b.cod b.dom b.data) "dagger"
+    else .call "Box" (reprTGenArgs b.name b.dom b.cod b.data)
   | .swap => .call "Swap" [reprTTy (b.dom.take 1), reprTTy (b.dom.drop 1)]
   | .cup => .call "Cup" [reprTTy (b.dom.take 1), reprTTy (b.dom.drop 1)]
   | .cap => .call "Cap" [reprTTy (b.cod.take 1), reprTTy (b.cod.drop 1)]
